@@ -86,6 +86,8 @@ def gen(tier, rng):
         elif k == 4: out.append("big.conv %s" % hx(d[:20]))
         elif k == 5: out.append("uns.frombytes %s" % hx(d[:20]))
         else: out.append("oid.parse %s" % hx(bytes(rng.choice(b"0123456789.+- ") for _ in range(rng.randrange(0, 14)))))
+    for (m, d, sc) in scripts.leaf_battery(rng, 6000 if tier == "quick" else 60000):
+        out.append("run %s %s %s %s" % (m, rng.choice(["slice", "stingy", "chunk1", "bytes"]), hx(d), sc))
     # ---- runtime clauses: depth, declared lengths, allocation
     depth = 100000
     for form in ("def", "indef", "mixed"):
